@@ -707,7 +707,8 @@ where
         blobs.sort_by_key(Blob::id);
 
         let active_blob = if with_active {
-            if blobs.is_empty() && new_corrupted_blob_count > 0 {
+            // All existing blobs are either quarantined or ignored (`ignore_corrupted`)
+            if blobs.is_empty() {
                 let next = self.inner.next_blob_name()?;
                 Some(Blob::open_new(next, self.inner.iodriver.clone(), self.inner.config.blob()).await?)
             } else {
